@@ -7,6 +7,7 @@ Line protocol for C20:
 
   build <evs>                     → the mirror builder's forest `(ty off end child…) …` | `_`
   buildfile <fileTy> <n> <evs>    → root of `builder.build()` with a File node | `none`
+  buildsingle <evs>               → `builder.build()` WITHOUT a file node: the single root | `none` (not exactly one root)
   buildfile2 <fileTy> <n> <evs>   → the same for the repaired `build()` (File adopts every root); the harness
                                     picks the op by probing the real builder at start-up
   nest <n> <evs>                  → `nested` | `not-nested`   (the predicate `WellNested n evs` of Props/C20)
@@ -69,6 +70,11 @@ def handleCase (args : List String) : Option String :=
   | ["buildfile2", ty, n, evs] => do
     let ty ← parseInt? ty; let n ← parseNat? n; let evs ← parseEvs evs
     some (buildFileAll ty n evs).show
+  | ["buildsingle", evs] => do
+    let evs ← parseEvs evs
+    some (match buildSingle evs with
+      | some t => t.show
+      | none => "none")
   | ["nest", n, evs] => do
     let n ← parseNat? n; let evs ← parseEvs evs
     some (nestStr n evs)
@@ -156,6 +162,14 @@ def judge (answer case : List String) : Option String :=
       | none => "none"
     if decide (WellNested n evs) && " ".intercalate answer != want then
       some "violates: well-nested stream, tree differs from the unique tree with every node under its smallest container"
+    else some "holds"
+  | ["buildsingle", evs] => do
+    let evs ← parseEvs evs
+    let want := match buildSingle evs with
+      | some t => t.show
+      | none => "none"
+    if decide (WellNested (maxEnd evs) evs) && " ".intercalate answer != want then
+      some "violates: well-nested stream, build() without a file node must return the single root containing every reported node, or fail"
     else some "holds"
   | ["buildfile2", ty, n, evs] => do
     let ty ← parseInt? ty; let n ← parseNat? n; let evs ← parseEvs evs
